@@ -12,6 +12,7 @@ import subprocess
 
 HEADER = """From JsonSyntax Require Import Base.Prelude Base.Value Base.Unicode Base.Source
   Model.Parser Model.EntryPoints Model.Printer Model.Unordered Model.Compare Spec.Layout Spec.Minimal.
+From JsonSyntax Require Model.Macro Model.MacroFloat Spec.MacroDoc.
 Import ListNotations.
 Open Scope N_scope.
 Set Printing Depth 1000000.
@@ -88,8 +89,67 @@ def popts_term(h):
             "object_limit := %s |}" % (ind, *a, limit_term(h[6]), *o, limit_term(h[14])))
 
 
+# ------------------------------------------------------------------ C19: documents of json! literals
+def _c19_doc_term(t, i, env):
+    """tokens of a `m <document>` case line -> (Gallina term of type MacroDoc.doc, next index)"""
+    h = t[i]
+    if h == "n":
+        return "MacroDoc.DNull", i + 1
+    if h in ("t", "f"):
+        return "(MacroDoc.DBool %s)" % ("true" if h == "t" else "false"), i + 1
+    if h[0] == "i":
+        return "(MacroDoc.DInt (%d)%%Z)" % int(h[1:]), i + 1
+    if h[0] == "d":
+        cps = "[" + "; ".join(str(ord(c)) for c in h[2:]) + "]"
+        return "(MacroDoc.DFloat %s %s)" % ("true" if h[1] == "-" else "false", cps), i + 1
+    if h[0] == "$":
+        return f"(MacroDoc.DStr {cps_term(h[1:])})", i + 1
+    if h == "[":
+        items, i = [], i + 1
+        while not t[i].startswith("]"):
+            x, i = _c19_doc_term(t, i, env)
+            items.append(x)
+        return "(MacroDoc.DArr [%s] %s)" % ("; ".join(items), "true" if t[i] == "]+" else "false"), i + 1
+    if h == "{":
+        items, i = [], i + 1
+        while not t[i].startswith("}"):
+            k = t[i]
+            key = cps_term(k[1:])
+            name = "[" + "; ".join(str(ord(c)) for c in "K" + "".join("_" + x for x in (k[1:].split(",") if k[1:] != "-" else []))) + "]"
+            kf = {"k": "MacroDoc.KLit", "p": "MacroDoc.KParen", "v": f"(MacroDoc.KVar {name})", "q": f"(MacroDoc.KParenVar {name})"}[k[0]]
+            if k[0] in "vq":
+                env[name] = key
+            x, i = _c19_doc_term(t, i + 1, env)
+            items.append(f"({kf}, {key}, {x})")
+        return "(MacroDoc.DObj [%s] %s)" % ("; ".join(items), "true" if t[i] == "}+" else "false"), i + 1
+    raise ValueError("document token " + h)
+
+
+def _c19_case_term(t):
+    env = {}
+    d, end = _c19_doc_term(t, 1, env)
+    if end != len(t):
+        raise ValueError("trailing tokens")
+    e = "None"
+    for name, key in env.items():
+        e = f"if str_eqb x {name} then Some {key} else {e}"
+    return (f"let d := {d} in (Macro.expand MacroFloat.lexical_f64 (fun x : list N => {e}) 3000%nat (MacroDoc.tokens d), "
+            f"parse_str (MacroDoc.text d), MacroDoc.value_of d, MacroDoc.text d)")
+
+
+def _c19_model_line(ast):
+    m, p, v, t = ast[1]
+    ms = value_line(m[2][0]) if m[1] == "Some" else "NONE"
+    ps = value_line(p[2][0][1][0]) if p[1] == "Ok" else "ERR"
+    eq = "1" if (ms == ps and ms != "NONE") else "0"
+    vs, ts = value_line(v), cps_tok(t)
+    return f"M={ms} P={ps} EQ={eq} T={ts}", f"M={vs} P={vs} EQ=1 T={ts}"
+
+
 def case_term(fam, case):
     t = case.split(" ")
+    if fam == "c19" and t[0] == "m":
+        return _c19_case_term(t)
     if fam in ("c12", "c02", "c05"):
         if t[0] == "s":
             return f"parse_str_with {opts_term(t[1])} {cps_term(t[2])}"
@@ -211,6 +271,8 @@ def opt_text(o):
 
 def model_line(fam, ast):
     """(model column, spec column or None) in the format of ocaml/fam_*.ml"""
+    if fam == "c19":
+        return _c19_model_line(ast)
     if fam == "c12":
         if ast[1] == "Ok":
             v, cm = ast[2][0][1]
